@@ -10,9 +10,11 @@ import (
 	"math/big"
 	"math/rand"
 	"os"
+	"reflect"
 	"strconv"
 	"strings"
 	"sync"
+	"unsafe"
 
 	"perun.network/go-perun/apps/payment"
 	_ "perun.network/go-perun/backend/sim" // registers the sim backend (id 0)
@@ -38,6 +40,11 @@ func init() {
 	Rng = rand.New(rand.NewSource(seed + 1))
 	for i := range Accs {
 		Accs[i] = simwallet.NewRandomAccount(Rng)
+	}
+	if os.Getenv("VERIF_FX_TWIN") == "1" {
+		// boundary choice of keys: participant 1's key is the negation of participant 0's, so the
+		// two addresses share their X coordinate and differ in Y only
+		Accs[1] = twinOf(Accs[0])
 	}
 	for i := range Assets {
 		Assets[i] = &simchannel.Asset{ID: uint64(0xA0 + i)}
@@ -137,4 +144,24 @@ func Verifies(i int, st *channel.State, sig wallet.Sig) bool {
 	d := sha256.Sum256([]byte(enc))
 	pk := (*ecdsa.PublicKey)(Accs[i].Address().(*simwallet.Address))
 	return ecdsa.Verify(pk, d[:], new(big.Int).SetBytes(sig[:32]), new(big.Int).SetBytes(sig[32:]))
+}
+
+// twinOf returns an account whose private key is the negation (mod the group order) of a's: its
+// public key is (X, -Y). The sim wallet has no constructor from a key, so the key of a fresh
+// account is replaced in place.
+func twinOf(a *simwallet.Account) *simwallet.Account {
+	priv := func(acc *simwallet.Account) *reflect.Value {
+		f := reflect.ValueOf(acc).Elem().FieldByName("privKey")
+		v := reflect.NewAt(f.Type(), unsafe.Pointer(f.UnsafeAddr())).Elem()
+		return &v
+	}
+	k := priv(a).Interface().(*ecdsa.PrivateKey)
+	d := new(big.Int).Sub(k.Curve.Params().N, k.D)
+	x, y := k.Curve.ScalarBaseMult(d.Bytes())
+	t := simwallet.NewRandomAccount(Rng)
+	priv(t).Set(reflect.ValueOf(&ecdsa.PrivateKey{PublicKey: ecdsa.PublicKey{Curve: k.Curve, X: x, Y: y}, D: d}))
+	if x.Cmp(k.X) != 0 || y.Cmp(k.Y) == 0 {
+		panic("fx: twin key construction failed")
+	}
+	return t
 }
